@@ -960,8 +960,8 @@ class CPreProcessor:
 
     OP_MAP = {
         "*": (11, False, operator.mul),
-        "/": (11, False, operator.floordiv),
-        "%": (11, False, operator.mod),
+        "/": (11, False, lambda x, y: c_div(x, y)),
+        "%": (11, False, lambda x, y: x - y * c_div(x, y)),
         "+": (10, False, operator.add),
         "-": (10, False, operator.sub),
         "<<": (9, False, operator.lshift),
@@ -1125,6 +1125,14 @@ class CPreProcessor:
         else:  # pragma: no cover
             raise NotImplementedError(str(expr))
         return value
+
+
+def c_div(x, y):
+    """Integer division as in C: the quotient is truncated towards zero."""
+    quotient = abs(x) // abs(y)
+    if (x < 0) != (y < 0):
+        quotient = -quotient
+    return quotient
 
 
 class FileExpander:
